@@ -1,6 +1,6 @@
 // U-sched: the scheduler core under contract (C01-C06, C08, C15, C16, C19 function-level parts).
 //@@ unit U-sched
-//@@ default props=C02 rewrites=R1,R2,R3,R5,R13 ghost="Tracked(h): Tracked<&mut Heap>" ghostarg="Tracked(h)" loopinv="h.wf(), fwd(*old(h), *h)," bodyprelude="broadcast use {lemma_fwd_refl, lemma_fwd_trans};"
+//@@ default props=C02 rewrites=R1,R2,R3,R5,R13 ghost="Tracked(h): Tracked<&mut Heap>" ghostarg="Tracked(h)" loopinv="h.wf(), fwd(*old(h), *h)," bodyprelude="broadcast use {lemma_fwd_refl, lemma_fwd_trans};" attr="#[verifier::exec_allows_no_decreases_clause] #[verifier::loop_isolation(false)]"
 //@@ heapmethods state set_state set_err err children children_in next parent siblings task set_task sched_task emit_task_event emit_proc_event eval init run review error exec is_ready emit_task emit_error create_task push root set_data flag set_flag prev start_time update_data outputs is_event_processed prepare is_auto_complete
 use vstd::prelude::*;
 use std::sync::Arc;
@@ -10,11 +10,25 @@ verus! {
 
 // ---- stubs that later slices replace by extracted code
 impl Task {
-    #[verifier::external_body]
-    pub fn exec(self: &Arc<Self>, ctx: &Context, Tracked(h): Tracked<&mut Heap>) -> (r: Result<()>)
+//@@ extract file=acts/src/scheduler/process/task.rs in="impl Task" item="fn exec" name=Task::exec props=C02,C05
+//@@ opt attr="#[verifier::exec_allows_no_decreases_clause]"
+//@@ spec
         requires old(h).wf(), wf_task(*old(h), **self)
-        ensures final(h).wf(), fwd(*old(h), *final(h)),
-    { unimplemented!() }
+        ensures
+            //# P-exec-fwd
+            final(h).wf() && fwd(*old(h), *final(h)),
+            //# P-exec-refuses-completed
+            st_terminal(old(h).st(self.id@)) ==> ret is Err && *final(h) == *old(h),
+//@@ end
+//@@ extract file=acts/src/scheduler/process/task.rs in="impl Task" item="fn resume" name=Task::resume props=C02,C01
+//@@ opt attr="#[verifier::exec_allows_no_decreases_clause]"
+//@@ rw R7 `ctx . runtime . scher ( )` => `ctx.runtime.scher()`
+//@@ spec
+        requires old(h).wf(), wf_task(*old(h), **self), old(h).st(self.id@) is Pending
+        ensures
+            //# P-resume-fwd
+            final(h).wf() && fwd(*old(h), *final(h)),
+//@@ end
     // is_ready may demote an else-branch to Skipped; a `true` answer changes nothing
     #[verifier::external_body]
     pub fn is_ready(&self, Tracked(h): Tracked<&mut Heap>) -> (r: bool)
@@ -24,33 +38,47 @@ impl Task {
     { unimplemented!() }
 }
 impl Context {
-    #[verifier::external_body]
-    pub fn emit_error(&self, Tracked(h): Tracked<&mut Heap>) -> (r: Result<()>)
-        requires old(h).wf()
-        ensures final(h).wf(), fwd(*old(h), *final(h)),
-    { unimplemented!() }
-    #[verifier::external_body]
-    pub fn emit_task(&self, task: &Arc<Task>, Tracked(h): Tracked<&mut Heap>) -> (r: Result<()>)
+//@@ extract file=acts/src/scheduler/context.rs in="impl Context" item="fn sched_task" name=Context::sched_task props=C02,C04
+//@@ rw R7 `Some ( self . task ( ) )` => `Some(self.task())`
+//@@ spec
+        requires old(h).wf(), node.s_kind() != NodeKind::Workflow
+        ensures
+            //# D-sched-fwd
+            final(h).wf() && fwd(*old(h), *final(h)) && final(h).cur == old(h).cur,
+            //# D-sched-one-new-task
+            exists|n: Tid| !old(h).has(n) && #[trigger] final(h).tasks == old(h).tasks.insert(n, fresh_task(*node, Some(old(h).cur))) && final(h).queue == old(h).queue.push(n),
+//@@ end
+//@@ extract file=acts/src/scheduler/context.rs in="impl Context" item="fn emit_task" name=Context::emit_task props=C02,C03,C08
+//@@ rw R7 `self . runtime . scher ( )` => `self.runtime.scher()`
+//@@ spec
         requires old(h).wf(), wf_task(*old(h), **task)
-        ensures final(h).wf(), fwd(*old(h), *final(h)), final(h).cur == old(h).cur,
-    { unimplemented!() }
-    #[verifier::external_body]
-    pub fn sched_task(&self, node: &Arc<Node>, Tracked(h): Tracked<&mut Heap>)
+        ensures
+            //# H4-emit-fwd
+            final(h).wf() && fwd(*old(h), *final(h)) && final(h).cur == old(h).cur,
+//@@ end
+//@@ extract file=acts/src/scheduler/context.rs in="impl Context" item="fn emit_error" name=Context::emit_error props=C02,C06
+//@@ opt attr="#[verifier::exec_allows_no_decreases_clause]"
+//@@ spec
         requires old(h).wf()
-        ensures final(h).wf(), fwd(*old(h), *final(h)), final(h).cur == old(h).cur,
-                forall|t: Tid| old(h).has(t) ==> final(h).tasks[t] == old(h).tasks[t],
-    { unimplemented!() }
+        ensures
+            //# E2-emit-error-fwd
+            final(h).wf() && fwd(*old(h), *final(h)),
+//@@ end
 }
 
 // ---- the ActTask protocol (scheduler/mod.rs).  Trait-level contract = the summary every implementation keeps.
 pub trait ActTask: Sized {
     // `self` is the content of the context's current task (Workflow/Branch/Step/Act) or a task of the heap (Arc<Task>)
     spec fn fits(&self, h: Heap) -> bool;
+    // what `run` may assume: the content impls are only run for a task that was just set Running (dispatcher, task.rs run)
+    spec fn run_pre(&self, h: Heap) -> bool;
+    // which task is current after `init`: unchanged for the content impls, the task itself for the dispatcher
+    spec fn init_cur(&self, a: Heap, b: Heap) -> bool;
     fn init(&self, ctx: &Context, Tracked(h): Tracked<&mut Heap>) -> (ret: Result<()>)
         requires old(h).wf(), self.fits(*old(h))
-        ensures final(h).wf(), fwd(*old(h), *final(h));
+        ensures final(h).wf(), fwd(*old(h), *final(h)), ret is Ok ==> self.init_cur(*old(h), *final(h));
     fn run(&self, ctx: &Context, Tracked(h): Tracked<&mut Heap>) -> (ret: Result<()>)
-        requires old(h).wf(), self.fits(*old(h)), old(h).st(old(h).cur) is Running
+        requires old(h).wf(), self.fits(*old(h)), self.run_pre(*old(h))
         ensures final(h).wf(), fwd(*old(h), *final(h));
     fn next(&self, ctx: &Context, Tracked(h): Tracked<&mut Heap>) -> (ret: Result<bool>)
         requires old(h).wf(), self.fits(*old(h))
@@ -58,15 +86,19 @@ pub trait ActTask: Sized {
     fn review(&self, ctx: &Context, Tracked(h): Tracked<&mut Heap>) -> (ret: Result<bool>)
         requires old(h).wf(), self.fits(*old(h))
         ensures final(h).wf(), fwd(*old(h), *final(h));
-//@@ extract file=acts/src/scheduler/mod.rs in="trait ActTask" item="fn error" name=ActTask::error props=C02,C06
-//@@ spec
+    fn error(&self, ctx: &Context, Tracked(h): Tracked<&mut Heap>) -> (ret: Result<()>)
         requires old(h).wf(), self.fits(*old(h))
-        ensures final(h).wf(), fwd(*old(h), *final(h))
-//@@ end
+        ensures final(h).wf(), fwd(*old(h), *final(h));
 }
 
 impl ActTask for Workflow {
     open spec fn fits(&self, h: Heap) -> bool { h.tasks[h.cur].node.content == NodeContent::Workflow(*self) }
+    open spec fn run_pre(&self, h: Heap) -> bool { h.st(h.cur) is Running }
+    open spec fn init_cur(&self, a: Heap, b: Heap) -> bool { b.cur == a.cur }
+    // R21: the trait's default `error` (scheduler/mod.rs), instantiated here because Workflow does not override it
+//@@ extract file=acts/src/scheduler/mod.rs in="trait ActTask" item="fn error" name=Workflow::error(default) props=C02,C06
+//@@ opt traitpost attr="#[verifier::exec_allows_no_decreases_clause]"
+//@@ end
     #[verifier::external_body]
     fn init(&self, ctx: &Context, Tracked(h): Tracked<&mut Heap>) -> (ret: Result<()>) { unimplemented!() }
 //@@ extract file=acts/src/scheduler/process/task/workflow.rs in="impl ActTask for Workflow" item="fn run" name=Workflow::run props=C02,C04
@@ -82,6 +114,12 @@ impl ActTask for Workflow {
 
 impl ActTask for Branch {
     open spec fn fits(&self, h: Heap) -> bool { h.tasks[h.cur].node.content == NodeContent::Branch(*self) }
+    open spec fn run_pre(&self, h: Heap) -> bool { h.st(h.cur) is Running }
+    open spec fn init_cur(&self, a: Heap, b: Heap) -> bool { b.cur == a.cur }
+    // R21: the trait's default `error` (scheduler/mod.rs), instantiated here because Branch does not override it
+//@@ extract file=acts/src/scheduler/mod.rs in="trait ActTask" item="fn error" name=Branch::error(default) props=C02,C06
+//@@ opt traitpost attr="#[verifier::exec_allows_no_decreases_clause]"
+//@@ end
     #[verifier::external_body]
     fn init(&self, ctx: &Context, Tracked(h): Tracked<&mut Heap>) -> (ret: Result<()>) { unimplemented!() }
 //@@ extract file=acts/src/scheduler/process/task/branch.rs in="impl ActTask for Branch" item="fn run" name=Branch::run props=C02,C04
@@ -97,6 +135,12 @@ impl ActTask for Branch {
 
 impl ActTask for Step {
     open spec fn fits(&self, h: Heap) -> bool { h.tasks[h.cur].node.content == NodeContent::Step(*self) }
+    open spec fn run_pre(&self, h: Heap) -> bool { h.st(h.cur) is Running }
+    open spec fn init_cur(&self, a: Heap, b: Heap) -> bool { b.cur == a.cur }
+    // R21: the trait's default `error` (scheduler/mod.rs), instantiated here because Step does not override it
+//@@ extract file=acts/src/scheduler/mod.rs in="trait ActTask" item="fn error" name=Step::error(default) props=C02,C06
+//@@ opt traitpost attr="#[verifier::exec_allows_no_decreases_clause]"
+//@@ end
     #[verifier::external_body]
     fn init(&self, ctx: &Context, Tracked(h): Tracked<&mut Heap>) -> (ret: Result<()>) { unimplemented!() }
 //@@ extract file=acts/src/scheduler/process/task/step.rs in="impl ActTask for Step" item="fn run" name=Step::run props=C02,C04
@@ -120,6 +164,12 @@ impl ActTask for Step {
 
 impl ActTask for Act {
     open spec fn fits(&self, h: Heap) -> bool { h.tasks[h.cur].node.content == NodeContent::Act(*self) }
+    open spec fn run_pre(&self, h: Heap) -> bool { h.st(h.cur) is Running }
+    open spec fn init_cur(&self, a: Heap, b: Heap) -> bool { b.cur == a.cur }
+    // R21: the trait's default `error` (scheduler/mod.rs), instantiated here because Act does not override it
+//@@ extract file=acts/src/scheduler/mod.rs in="trait ActTask" item="fn error" name=Act::error(default) props=C02,C06
+//@@ opt traitpost attr="#[verifier::exec_allows_no_decreases_clause]"
+//@@ end
     #[verifier::external_body]
     fn init(&self, ctx: &Context, Tracked(h): Tracked<&mut Heap>) -> (ret: Result<()>) { unimplemented!() }
     #[verifier::external_body]
@@ -145,6 +195,8 @@ impl ActTask for Act {
 // the dispatcher: task.rs `impl ActTask for Arc<Task>`
 impl ActTask for Arc<Task> {
     open spec fn fits(&self, h: Heap) -> bool { wf_task(h, **self) }
+    open spec fn run_pre(&self, h: Heap) -> bool { h.cur == self.id@ }
+    open spec fn init_cur(&self, a: Heap, b: Heap) -> bool { b.cur == self.id@ }
 //@@ extract file=acts/src/scheduler/process/task.rs in="impl ActTask for Arc<Task>" item="fn init" name=Arc<Task>::init props=C02,C03,C08
 //@@ opt traitpost
 //@@ end
